@@ -318,6 +318,26 @@ def check(prog, rep):
                               for r in ast.walk(top.node))
         if not returns_closure:
             continue
+        # callables this builder compiled itself: calling one while building evaluates the expression now
+        compiled_here = {nm: v for nm, vals in assigns.items() for v in vals if isinstance(v, ast.Call) and (dotted(v.func) or "").split(".")[-1] in ("compile_expression", "_compile_cached", "_build_evaluator", "_build_evaluator_iterative") and v.args}
+        for n in walk_local(fi.node):
+            if isinstance(n, ast.Call) and isinstance(n.func, ast.Name) and n.func.id in compiled_here and enclosing_function(n) is fi.node and not (fi.parent is not None and fi.node.args.args and fi.node.args.args[0].arg in ("x", "values", "point")):
+                src_expr = compiled_here[n.func.id].args[0]
+                recv = src(src_expr)
+                n_eval += 1
+                construct = f"{fi.qual.split(':')[1]}:{n.func.id}(..)"
+                loc = f"{fi.module.rel}:{n.lineno}"
+                if implied_constant(n, recv, assigns):
+                    rep.ob("R12.1", construct, True, f"dominated by isinstance({recv}, Constant)", loc=loc, detail="constant-guarded", robust=True)
+                    continue
+                verdict = _guard_evidence(fi, n, recv, assigns)
+                if verdict == "unknown":
+                    rep.undecided(f"{construct}: the callable compiled from `{recv}` is called while the artefact is built, under a test of {recv} this rule cannot follow: not decided")
+                    continue
+                rep.ob("R12.1", construct, False,
+                       f"`{src(n)[:50]}` calls the callable compiled from `{recv}` while the artefact is being built and keeps the number: nothing establishes that `{recv}` holds no Parameter "
+                       f"(having no *variables* does not), so the parameter's value at compile time is frozen into the result and later Parameter.set() calls are ignored",
+                       loc=loc, detail="eager-read", robust=True)
         for n in walk_local(fi.node):
             if not (isinstance(n, ast.Call) and isinstance(n.func, ast.Attribute) and n.func.attr == "evaluate"):
                 continue
